@@ -83,6 +83,11 @@ B_C03 == \A k \in 1..Len(Steps) : IsRec(k) => NoCollateralStep(Before(k), After(
 \* C08: no reconcile of an unchanged template changed the update revision or added a revision
 B_C08 == \A k \in 1..Len(Steps) : IsRec(k) => NoRestartStep(Before(k), After(k), Steps[k].res)
 
+\* C18: after a migration no reconcile adds a revision or takes away a pod that is up to date; in the end everything is adopted
+B_C18 == /\ \A k \in 1..Len(Steps) : IsRec(k) => (NoNewRevisionStep(Before(k), After(k)) /\ PodKeptStep(Before(k), After(k)))
+         /\ (ConvergedS(Final) => AllAdoptedS(Final))
+         /\ (ConvergedS(Final) \/ StuckS(Final))
+
 \* C09 / C11: the final state equals the one of the twin run (without the injected faults / without the pause)
 TmplAt(s, o) == TmplOfRevS(s, s.api.pods[o].rev)
 Spec6(s) == <<s.api.set.replicas, s.api.set.slots, s.api.set.policy, s.api.set.strat, s.api.set.part, s.api.set.tmpl>>
